@@ -315,6 +315,11 @@ func (h *harness) issue(o op) {
 		h.errs.Go(func() {
 			defer h.wg.Done()
 			h.b.Close()
+			// "Close returns only when ... every forwarder has finished": at the instant THIS call returns - also when it
+			// overlaps another Close - no forwarder goroutine may be parked or not yet started (census by creator)
+			if n, st := vk.HelpersParked("events/broadcaster."); n > 0 {
+				h.errs.Failf("a Close call returned while %d forwarder goroutine(s) of the broadcaster had not finished (parked or not even started):\n%s", n, st)
+			}
 			// what each manual subscriber has been handed at the instant THIS Close call returned
 			// (every Close call - also one that overlaps another - returns only when nothing more is delivered)
 			h.mu.Lock()
